@@ -400,10 +400,14 @@ func curReq(h *History, nsteps int) string {
 
 // ---- generator ------------------------------------------------------------------------------
 
-var safeNames = []string{"/x/a.yaml", "/x/ab.yaml", "/x/a.b.yaml", "/x/a b.yaml", "/x/w_c.yaml", "/y/a.yaml", "/x/job-1.yaml", "/x/a_c.yaml"}
+// (names that contain the store's own suffixes - .dat, _c, .tmp, .dat.tmp - are in both pools: a compacted / temporary file name must be
+// built from the END of the file name, never by a replacement inside it)
+var safeNames = []string{"/x/a.yaml", "/x/ab.yaml", "/x/a.b.yaml", "/x/a b.yaml", "/x/w_c.yaml", "/y/a.yaml", "/x/job-1.yaml", "/x/a_c.yaml",
+	"/x/sync.database.yaml", "/x/load.data.yaml"}
 var unsafeNames = []string{"/x/a[1].yaml", "/x/q*.yaml", "/x/p?.yaml", "/x/a[.yaml", "/x/n20240101.10:00:00.yaml", "/x/m29990101.10:00:00.yaml", "/x/b\\c.yaml",
 	// a foreign suffix / .yml: jsondb.Rename works on util.AddYamlExtension of the name (fe0ec16), every other operation on the name itself
-	"/x/v1.2", "/x/c.yml"}
+	"/x/v1.2", "/x/c.yml",
+	"/x/p.dat.yaml", "/x/q_c.dat.yaml", "/x/r.tmp.yaml", "/x/s.dat.tmp.yaml", "/x/t_c.yaml"}
 
 // addYaml is util.AddYamlExtension as of fe0ec16, computed independently of /repo
 func addYaml(f string) string {
